@@ -563,6 +563,49 @@ theorem C10_cex_ordered_lookup :
     (Spec.ownerO cring [0x50]).map (·.2.id) = some 2 := by
   refine ⟨by unfold SortedO; decide, by unfold IsBytes; decide, by decide, by decide⟩
 
+/-! ## rings that are NOT strictly ascending (two claims of one token while a node is being replaced, any order)
+
+`C10_no_panic`, `C10_nts_nodup`, `C10_nts_bound`, `C10_nts_bound_total`, `C10_nts_primary_first` above carry no
+hypothesis on the token list at all: they hold for rings with equal tokens, in any order.  The same for SimpleStrategy: -/
+
+theorem perm_insertRep (e : Int × List Host) : ∀ l : ReplicaRing, (insertRep e l).Perm (e :: l)
+  | [] => List.Perm.refl _
+  | x :: xs => by
+    unfold insertRep
+    split
+    · exact List.Perm.refl _
+    · exact ((perm_insertRep e xs).cons x).trans (List.Perm.swap e x xs)
+
+theorem perm_sortReps : ∀ l : ReplicaRing, (sortReps l).Perm l
+  | [] => List.Perm.refl _
+  | y :: ys => by
+    have h : sortReps (y :: ys) = insertRep y (sortReps ys) := rfl
+    rw [h]
+    exact (perm_insertRep y _).trans ((perm_sortReps ys).cons y)
+
+/-- `C10_simple_any_ring`: for EVERY token list — equal tokens, any order, any number of tokens per node — every entry
+of `simpleStrategy.replicaMap`'s result names no node twice and at most min(rf, distinct nodes of the ring) nodes. -/
+theorem C10_simple_any_ring (rf : Nat) (tokens : List Entry) (e : Int × List Host)
+    (he : e ∈ simpleReplicaMap rf tokens) : e.2.Nodup ∧ e.2.length ≤ min rf (distinctNodes tokens) := by
+  unfold simpleReplicaMap at he
+  rw [(perm_sortReps _).mem_iff] at he
+  obtain ⟨i, _, rfl⟩ := List.mem_map.mp he
+  simp only
+  unfold simpleReplicasAt
+  rw [simpleWalk_init]
+  refine ⟨List.Sublist.nodup (List.take_sublist _ _) (nodup_firsts _), ?_⟩
+  rw [List.length_take]
+  have : (Spec.firsts ((rot tokens i).map (·.2))).length = distinctNodes tokens := by
+    unfold distinctNodes
+    apply length_firsts_congr
+    intro x
+    have hr : (rot tokens i).map (·.2) = rot (tokens.map (·.2)) i := by simp [rot]
+    rw [hr, mem_rot]
+  omega
+
+example : simpleReplicaMap 2 [(5, ⟨1, 1, 1⟩), (5, ⟨2, 1, 1⟩), (5, ⟨1, 1, 1⟩)]
+    = [(5, [⟨1, 1, 1⟩, ⟨2, 1, 1⟩]), (5, [⟨2, 1, 1⟩, ⟨1, 1, 1⟩]), (5, [⟨1, 1, 1⟩, ⟨2, 1, 1⟩])] := by decide
+
 /-! ## regression: the inputs of the repaired findings -/
 
 /-- KF-C10-1 input {A:0,5; B:10; C:20}, one rack, rf {dc1:2}: token 0 ↦ [A, B], as Cassandra -/
